@@ -192,6 +192,10 @@ impl TerminalState {
                 if buf.is_terminal_buffer {
                     let first = buf.get_first_visible_line();
                     caret.pos.y = caret.pos.y.clamp(first, first + self.get_height() - 1);
+                } else {
+                    // a file can be as long as it wants to, but a cursor command can't jump further than one screen
+                    // below its last line (a number in the file must not decide how much memory loading it takes)
+                    caret.pos.y = caret.pos.y.clamp(0, crate::TextPane::get_line_count(buf).saturating_add(self.get_height().max(1)));
                 }
                 caret.pos.x = caret.pos.x.clamp(0, (self.get_width() - 1).max(0));
             }
